@@ -48,12 +48,10 @@ def orbits(ms):
 def plain(x):
     """JSON-able rendering of what the client handed back (enum -> number, bytes -> hex, library
     primitives -> their value)."""
-    if x is None or isinstance(x, (bool, int, str)):
-        if isinstance(x, enum.Enum):
-            return x.value
-        return x
     if isinstance(x, enum.Enum):
         return x.value
+    if x is None or isinstance(x, (bool, int, str)):
+        return x
     if isinstance(x, (bytes, bytearray)):
         return bytes(x).hex()
     if isinstance(x, (list, tuple)):
@@ -197,8 +195,7 @@ def template_of(pl, v, which="template"):
 class Op(object):
     name = None
     apis = ("pie", "proxy")
-    min_version = (1, 0)       # versions below: the client may refuse (nothing is demanded)
-    versions = None            # None = all
+    min_version = (1, 0)       # informational: KMIP version that introduced the operation
 
     @property
     def code(self):
